@@ -260,7 +260,9 @@ static void case_scan(ByteSource& in, CaseInfo& ci) {
   bool vform = in.flag(); if (vform) ci.label(file ? "gmp_vfscanf" : "gmp_vsscanf");
   auto scan = [&](const std::string& text, const char* fmt, auto... a) -> int { if (!file) return vform ? v_sscanf(text.c_str(), fmt, a...) : gmp_sscanf(text.c_str(), fmt, a...); std::string t = text; if (t.empty()) { FILE* fp = fopen("/dev/null", "r"); int r = vform ? v_fscanf(fp, fmt, a...) : gmp_fscanf(fp, fmt, a...); fclose(fp); return r; } FILE* fp = fmemopen((void*)t.data(), t.size(), "r"); int r = vform ? v_fscanf(fp, fmt, a...) : gmp_fscanf(fp, fmt, a...); fclose(fp); return r; };
   if (f == 0) { static const char* cvs[] = {"d", "i", "x", "o", "X"}; unsigned c = (unsigned)in.range(0, 4); Int A = gen_int(in, 4), B = gen_int(in, 4); Z a, b, ra, rb; mpz_from_int(a, A); mpz_from_int(b, B); bool hash = c == 1; std::string pf = std::string("%") + (hash ? "#" : "") + "Z" + (c == 1 ? "x" : cvs[c]);
-    char* p1 = nullptr; gmp_asprintf(&p1, (pf + " text %d " + pf).c_str(), a.z, 77, b.z); std::string text = p1; rec_free(p1, text.size() + 1); std::string sf = std::string("%Z") + cvs[c] + " text %d %Z" + cvs[c] + "%n"; int mid = 0, n = -1;
+    // literal text between the fields, in a third of the cases with bytes >= 0x80 (UTF-8 / Latin-1 text): it must match itself when read back
+    std::string lit = "text"; if (in.chance(85)) { static const char* L[] = {"\xe9t\xe9", "\xc3\xa9", "\xff", "x\x80y", "\xa0"}; lit = L[in.range(0, 4)]; ci.label("scan:literal_high_bit_bytes"); }
+    char* p1 = nullptr; gmp_asprintf(&p1, (pf + " " + lit + " %d " + pf).c_str(), a.z, 77, b.z); std::string text = p1; rec_free(p1, text.size() + 1); std::string sf = std::string("%Z") + cvs[c] + " " + lit + " %d %Z" + cvs[c] + "%n"; int mid = 0, n = -1;
     ci.d("scan Z text=\"%.100s\" fmt=\"%s\"", text.c_str(), sf.c_str()); int r = scan(text, sf.c_str(), ra.z, &mid, rb.z, &n);
     REQUIRE(r == 3, "gmp_%sscanf(\"%.60s\", \"%s\"): returned %d, expected 3 assigned fields", file ? "f" : "s", text.c_str(), sf.c_str(), r); REQUIRE(int_from_mpz(ra) == A && int_from_mpz(rb) == B && mid == 77, "gmp_sscanf does not read back what gmp_asprintf wrote (%s)", sf.c_str()); REQUIRE(n == (int)text.size(), "%%n after the last field: %d, text length %zu", n, text.size()); }
   else if (f == 1) { Int N = gen_int(in, 3), D = gen_int(in, 3, false); if (D.is_zero()) D = Int(1); mpq_t q, r; mpq_init(q); mpq_init(r); mpz_from_int(mpq_numref(q), N); mpz_from_int(mpq_denref(q), D); bool hex = in.flag(); char* p1 = nullptr; gmp_asprintf(&p1, hex ? "%#Qx;" : "%Qd;", q); std::string text = p1; rec_free(p1, text.size() + 1);
@@ -274,6 +276,10 @@ static void case_scan(ByteSource& in, CaseInfo& ci) {
     if (k == 0) { int r = scan("", "%Zd", a.z); REQUIRE(r == EOF, "gmp_sscanf on empty input: returned %d, expected EOF", r); ci.label("scan:eof"); }
     else if (k == 1) { int r = scan("   ", "%Zd", a.z); REQUIRE(r == EOF, "gmp_sscanf on blank input: returned %d, expected EOF", r); ci.label("scan:eof"); }
     else if (k == 2) { int r = scan("xyz", "%Zd", a.z); REQUIRE(r == 0, "gmp_sscanf matching failure: returned %d, expected 0", r); ci.label("scan:match_failure"); }
+    else if (in.chance(100)) {   // a field width that ends inside a float: the count must say whether the destination was assigned
+      static const char* T[] = {"1e5", "12e3", "1.5e2", "7E9", "1e+5", "0x1p3"}; unsigned ti = (unsigned)in.range(0, 5); std::string t = T[ti]; size_t epos = t.find_first_of("eEp"); int w = (int)(epos + (size_t)in.range(0, 2)); if (w < 1) w = 1;
+      std::string fm = "%" + std::to_string(w) + "Ff"; mpf_t fl; mpf_init2(fl, 128); mpf_set_si(fl, -777); int r = scan(t, fm.c_str(), fl); bool untouched = mpf_cmp_si(fl, -777) == 0; mpf_clear(fl); ci.label("scan:width_ends_inside_float"); ci.d("scan \"%s\" with \"%s\"", t.c_str(), fm.c_str());
+      REQUIRE((r == 1 && !untouched) || (r == 0 && untouched), "gmp_sscanf(\"%s\", \"%s\", f): returned %d but the destination was %s: the return value is the count of assigned fields", t.c_str(), fm.c_str(), r, untouched ? "not assigned" : "assigned"); }
     else { int r = scan("123 456 789", "%*Zd %Zd %d", a.z, &v); REQUIRE(r == 2 && int_from_mpz(a) == Int(456) && v == 789, "gmp_sscanf with %%*Zd: returned %d", r); ci.label("scan:suppression"); }
   }
 }
@@ -297,8 +303,14 @@ static void sweep_item(uint64_t i, CaseInfo& ci) {
   REQUIRE(n == (int)mid.size() && mid == buf, "gmp_snprintf \"%s\" of %ld: got \"%s\" (returned %d), expected \"%s\"", spec.c_str(), lv, buf, n, mid.c_str());
 }
 // deterministic regression cases for the repaired flag handling (compared with libc on the equal long value)
+#include <sys/mman.h>
 static void fixed_case(unsigned k, CaseInfo& ci) {
   struct T { const char* g; const char* c; long v; int star; } t[] = {{"%+ Zd", "%+ ld", 5, 0}, {"%-05Zd", "%-05ld", 5, 0}, {"%08.3Zd", "%08.3ld", 5, 0}, {"%.*Zd", "%.*ld", 0, -1}, {"%#.5Zo", "%#.5lo", 8, 0}, {"%0*Zd", "%0*ld", 7, -6}};
+  if (k == 6) {   // a buffer of more than INT_MAX bytes (lazily mapped: only the first page is touched): standard conversions mixed into the format must still be written
+    size_t size = ((size_t)1 << 31) + 4096; char* big = (char*)mmap(nullptr, size, PROT_READ | PROT_WRITE, MAP_PRIVATE | MAP_ANONYMOUS | MAP_NORESERVE, -1, 0);
+    ci.desc = "gmp_snprintf(buf, 2^31+4096, \"a=%d z=%Zd b=%s.\", 5, -42, \"str\") into a lazily mapped buffer"; if (big == (char*)MAP_FAILED) { ci.label("fixed6:address_space_refused_no_verdict"); return; }
+    Z z; mpz_set_si(z, -42); int r = gmp_snprintf(big, size, "a=%d z=%Zd b=%s.", 5, z.z, "str"); std::string got(big, strnlen(big, 64)); munmap(big, size);
+    REQUIRE(r == 16 && got == "a=5 z=-42 b=str.", "gmp_snprintf with size 2^31+4096: returned %d and wrote \"%s\", expected 16 and \"a=5 z=-42 b=str.\" (the text of the standard conversions is missing when the size does not fit an int)", r, got.c_str()); return; }
   if (k >= sizeof t / sizeof t[0]) return; Z z; mpz_set_si(z, t[k].v); char a[64], b[64];
   if (t[k].star) { gmp_snprintf(a, sizeof a, t[k].g, t[k].star, z.z); snprintf(b, sizeof b, t[k].c, t[k].star, t[k].v); } else { gmp_snprintf(a, sizeof a, t[k].g, z.z); snprintf(b, sizeof b, t[k].c, t[k].v); }
   ci.desc = std::string("gmp_snprintf \"") + t[k].g + "\" of " + std::to_string(t[k].v); REQUIRE(!strcmp(a, b), "\"%s\" of %ld: got \"%s\", C gives \"%s\"", t[k].g, t[k].v, a, b);
